@@ -29,10 +29,20 @@
 (* OwnBytes = TRUE: the compressed bytes are copied into memory owned by    *)
 (*            the request before the scratch buffer is given back; FALSE:   *)
 (*            the request keeps pointing into the scratch buffer.           *)
+(* Connection age: the filter chain belongs to a backend CONNECTION (one    *)
+(* per node, made on first use, made again after it broke), the config is   *)
+(* changed at run time by OnSvcConfigUpdate.  `conn[n]` is the config that  *)
+(* was in force when the connection to node n was made; the request passes  *)
+(* the filter (compression, decompress hook) of the connection it is first  *)
+(* sent over.                                                               *)
+(* ConnConfig = "live": the filter of every connection reads the service's  *)
+(*            current config (the code: all clients share one *config);     *)
+(*            "at-connect": it reads the config of connection time.         *)
+(* Nodes = {}: connection age is not modelled (request parameter "any").    *)
 (***************************************************************************)
 EXTENDS Naturals, Sequences, FiniteSets, TLC
 
-CONSTANTS Keys, MaxOps, MaxRedirects, FixOnce, MaxVals, HookDepth, OwnBytes
+CONSTANTS Keys, MaxOps, MaxRedirects, FixOnce, MaxVals, HookDepth, OwnBytes, Nodes, ConnConfig
 
 \* value classes (relative to the configured threshold)
 \*  small  : shorter than the threshold                       -> never compressed
@@ -49,19 +59,25 @@ Depths == 0..MaxDepth
 \* the value positions of one write request
 ValSeqs == UNION {[1..n -> Classes] : n \in 1..MaxVals}
 
+\* the connection a request is first sent over
+Via == IF Nodes = {} THEN {"any"} ELSE Nodes
+
 VARIABLES cfg,        \* current compression config of the service
+          conn,       \* conn[n]: config in force when the connection to node n was made
           everEnabled,
           stored,     \* stored[k]: sequence of [cls, layers, ok] (one per value position) or <<>> if never written
           lastRead,   \* result of the last read: largest number of layers left on a value handed to the client (0 = original)
           lastReadOk, \* ... and whether every value handed to the client stems from the bytes the filter produced
           lastReadCfg,\* config that was in force at that read
+          packedOff,  \* a write request was compressed although compression was not enabled at that moment
           ops
 
-vars == <<cfg, everEnabled, stored, lastRead, lastReadOk, lastReadCfg, ops>>
+vars == <<cfg, conn, everEnabled, stored, lastRead, lastReadOk, lastReadCfg, packedOff, ops>>
 
 Init ==
   /\ cfg \in Configs /\ everEnabled = (cfg = "enabled")
-  /\ stored = [k \in Keys |-> <<>>] /\ lastRead = 0 /\ lastReadOk = TRUE /\ lastReadCfg = "absent" /\ ops = 0
+  /\ conn = [n \in Nodes |-> cfg]      \* every node is connected before the first config change
+  /\ stored = [k \in Keys |-> <<>>] /\ lastRead = 0 /\ lastReadOk = TRUE /\ lastReadCfg = "absent" /\ packedOff = FALSE /\ ops = 0
 
 \* one compression pass over a value of class cls that already has l layers
 Pass(cls, l) ==
@@ -73,16 +89,25 @@ Pass(cls, l) ==
 RECURSIVE Passes(_, _, _)
 Passes(cls, l, n) == IF n = 0 THEN l ELSE Passes(cls, Pass(cls, l), n - 1)
 
+\* the config the filter of the connection to node n works with
+Eff(n) == IF n = "any" \/ ConnConfig = "live" THEN cfg ELSE conn[n]
+
 SetConfig(c) ==
   /\ c # cfg /\ ops < MaxOps /\ ops' = ops + 1
   /\ cfg' = c /\ everEnabled' = (everEnabled \/ c = "enabled")
-  /\ UNCHANGED <<stored, lastRead, lastReadOk, lastReadCfg>>
+  /\ UNCHANGED <<conn, stored, lastRead, lastReadOk, lastReadCfg, packedOff>>
+
+\* the connection to node n breaks and is made again (under the current config)
+Reconnect(n) ==
+  /\ conn[n] # cfg /\ ops < MaxOps /\ ops' = ops + 1
+  /\ conn' = [conn EXCEPT ![n] = cfg]
+  /\ UNCHANGED <<cfg, everEnabled, stored, lastRead, lastReadOk, lastReadCfg, packedOff>>
 
 \* a write request with the value positions vals whose request is sent 1 + r times (r redirections);
 \* busy = other values are compressed / decompressed by the proxy while this request is on its way
-Write(k, vals, r, busy) ==
+Write(k, vals, r, busy, via) ==
   /\ ops < MaxOps /\ ops' = ops + 1
-  /\ LET n == IF cfg = "enabled" THEN (IF FixOnce THEN 1 ELSE 1 + r) ELSE 0
+  /\ LET n == IF Eff(via) = "enabled" THEN (IF FixOnce THEN 1 ELSE 1 + r) ELSE 0
          layersOf(i) == Passes(vals[i], 0, n)
          \* the value compression is entered (and the scratch buffer taken) for every value of at least threshold bytes
          taken(j) == n > 0 /\ vals[j] # "small"
@@ -90,26 +115,28 @@ Write(k, vals, r, busy) ==
          lost(i) == /\ ~OwnBytes /\ layersOf(i) > 0
                     /\ \/ \E j \in (i + 1)..Len(vals) : taken(j)
                        \/ busy
-     IN stored' = [stored EXCEPT ![k] = [i \in 1..Len(vals) |-> [cls |-> vals[i], layers |-> layersOf(i), ok |-> ~lost(i)]]]
-  /\ UNCHANGED <<cfg, everEnabled, lastRead, lastReadOk, lastReadCfg>>
+     IN /\ stored' = [stored EXCEPT ![k] = [i \in 1..Len(vals) |-> [cls |-> vals[i], layers |-> layersOf(i), ok |-> ~lost(i)]]]
+        /\ packedOff' = (packedOff \/ (cfg # "enabled" /\ \E i \in 1..Len(vals) : layersOf(i) > 0))
+  /\ UNCHANGED <<cfg, conn, everEnabled, lastRead, lastReadOk, lastReadCfg>>
 
 Max(S) == CHOOSE x \in S : \A y \in S : y <= x
 
 \* a read whose request is sent 1 + r times and whose reply carries the values at nesting depth d:
 \* one decompress hook per pass while a config is present, each reaching down to HookDepth
-Read(k, r, d) ==
+Read(k, r, d, via) ==
   /\ stored[k] # <<>> /\ ops < MaxOps /\ ops' = ops + 1
-  /\ LET hooks == IF cfg = "absent" \/ d > HookDepth THEN 0 ELSE (IF FixOnce THEN 1 ELSE 1 + r)
+  /\ LET hooks == IF Eff(via) = "absent" \/ d > HookDepth THEN 0 ELSE (IF FixOnce THEN 1 ELSE 1 + r)
          left(i) == IF hooks >= stored[k][i].layers THEN 0 ELSE stored[k][i].layers - hooks
      IN /\ lastRead' = Max({left(i) : i \in 1..Len(stored[k])})
         /\ lastReadOk' = \A i \in 1..Len(stored[k]) : stored[k][i].ok
   /\ lastReadCfg' = cfg
-  /\ UNCHANGED <<cfg, everEnabled, stored>>
+  /\ UNCHANGED <<cfg, conn, everEnabled, stored, packedOff>>
 
 Next ==
   \/ \E c \in Configs : SetConfig(c)
-  \/ \E k \in Keys, vals \in ValSeqs, r \in 0..MaxRedirects, busy \in BOOLEAN : Write(k, vals, r, busy)
-  \/ \E k \in Keys, r \in 0..MaxRedirects, d \in Depths : Read(k, r, d)
+  \/ \E n \in Nodes : Reconnect(n)
+  \/ \E k \in Keys, vals \in ValSeqs, r \in 0..MaxRedirects, busy \in BOOLEAN, via \in Via : Write(k, vals, r, busy, via)
+  \/ \E k \in Keys, r \in 0..MaxRedirects, d \in Depths, via \in Via : Read(k, r, d, via)
 
 Spec == Init /\ [][Next]_vars
 
@@ -121,9 +148,14 @@ ReadBack == lastReadCfg # "absent" => lastRead = 0 /\ lastReadOk
 \* nothing is ever compressed while compression is not enabled
 OnlyWhenEnabled == ~everEnabled => \A k \in Keys : \A i \in 1..Len(stored[k]) : stored[k][i].layers = 0
 
+\* switched off means switched off: whatever is stored compressed was written while compression was enabled
+OffMeansOff == ~packedOff
+
 \* windows that must be reachable (checked as invariants that TLC must violate)
 NoNestedReadOfCompressed ==   \* a value stored compressed is read back inside a nested array while a config is present
   ~(\E k \in Keys : ops < MaxOps /\ cfg # "absent" /\ \E i \in 1..Len(stored[k]) : stored[k][i].layers > 0)
+NoReadOverOlderConnection ==   \* a value stored compressed can be read over a connection made before the config became what it is
+  ~(\E k \in Keys, n \in Nodes : ops < MaxOps /\ cfg # "absent" /\ conn[n] # cfg /\ \E i \in 1..Len(stored[k]) : stored[k][i].layers > 0)
 NoTwoCompressedInOneRequest ==
   ~(\E k \in Keys : Cardinality({i \in 1..Len(stored[k]) : stored[k][i].layers > 0}) >= 2)
 =============================================================================
